@@ -277,6 +277,15 @@ func (ms *MatrixSetup) UnmarshalOrdered(o any) error {
 		if err := ordered.Unmarshal(src, (*map[string][]string)(ms)); err != nil {
 			return err
 		}
+		// A dimension written with a null value (`os: ~`) has no values. Keep
+		// it as an empty list rather than nil: nil means "no such dimension"
+		// to validatePermutation, and marshals differently in JSON (null) and
+		// YAML ([]), which would change the signed matrix between the two.
+		for dim, values := range *ms {
+			if values == nil {
+				(*ms)[dim] = []string{}
+			}
+		}
 
 	default:
 		return fmt.Errorf("unsupported src type for MatrixSetup: %T", o)
